@@ -402,4 +402,94 @@ theorem grow_is_source : GrowSpec := by
   · show aq.count.toNat + 1 ≤ (aq.count - ((0 : Nat) : Int)).toNat + 2
     omega
 
+/-! ### `newAckqueue` -/
+
+/-- the size both constructors choose -/
+theorem newAckqueue_size (n : Int) (hn : 0 < n ∧ n ≤ 2 ^ 62) :
+    ∃ m : Int, (if (!(Sessions.powerOfTwo64 n)) then Sessions.roundUpPowerOfTwo64 n else n) = m ∧
+      0 < m ∧ m < 2 ^ 63 ∧
+      (if Mqtt.Model.AckQueue.powerOfTwo64 (BitVec.ofNat 64 n.toNat) then BitVec.ofNat 64 n.toNat
+        else Mqtt.Model.AckQueue.roundUpPowerOfTwo64 (BitVec.ofNat 64 n.toNat)).toNat = m.toNat := by
+  have hcast : BitVec.ofNat 64 n.toNat = BitVec.ofInt 64 n := by
+    rw [← BitVec.ofInt_natCast]; congr 1; omega
+  rw [hcast, ← powerOfTwo64_is_source n (by omega)]
+  cases hp : Sessions.powerOfTwo64 n
+  · refine ⟨Sessions.roundUpPowerOfTwo64 n, rfl, ?_⟩
+    obtain ⟨k, hk, h1, h2⟩ := roundUpPowerOfTwo64_least n hn
+    have hpart := roundUpPowerOfTwo64_partial n (by omega)
+    simp only [Bool.false_eq_true, ↓reduceIte]
+    generalize Mqtt.Model.AckQueue.roundUpPowerOfTwo64 (BitVec.ofInt 64 n) = x at hpart
+    have hx := x.isLt
+    rw [BitVec.toInt_eq_toNat_cond] at hpart
+    refine ⟨by omega, by omega, ?_⟩
+    split at hpart <;> omega
+  · refine ⟨n, rfl, hn.1, by omega, ?_⟩
+    simp only [↓reduceIte]
+    rw [← hcast, BitVec.toNat_ofNat]
+    omega
+
+theorem newAckqueue_is_source (n : Int) (hn : 0 < n ∧ n ≤ 2 ^ 62) :
+    ∃ aq, Sessions.newAckqueue n = .ok aq ∧
+      absQ aq = Mqtt.Model.AckQueue.newAckqueue n.toNat ∧ GWf aq := by
+  obtain ⟨m, hg, h0, h1, hm⟩ := newAckqueue_size n hn
+  unfold Sessions.newAckqueue Mqtt.Model.AckQueue.newAckqueue
+  simp only []
+  rw [hg, hm]
+  have : (0 : Int) ≤ m := by omega
+  simp only [this, decide_true, ↓reduceIte]
+  refine ⟨_, rfl, ?_, ⟨by omega, by show (0 : Int) ≤ m - 1; omega, Int.le_refl 0, Int.le_refl 0, Int.le_refl 0, mapNonneg_nil⟩⟩
+  unfold absQ
+  simp only [Q.mk.injEq, List.map_nil, List.map_replicate, absMsg_zero, and_true, true_and]
+  refine ⟨?_, rfl, rfl, rfl⟩
+  omega
+
+/-- outside the precondition (`n ≤ 0`, e.g. the zero `int`): both constructors build the empty
+ring of size 0; the model's `mask` is `0 - 1 = 0` on `Nat`, the code's is `-1`, so the
+translated value is not `GWf` (and `Inv` fails: 0 is not a power of two). -/
+theorem newAckqueue_zero :
+    Sessions.newAckqueue 0 = .ok ⟨0, -1, 0, 0, 0, [], [], [], []⟩ ∧
+      absQ ⟨0, -1, 0, 0, 0, [], [], [], []⟩ = Mqtt.Model.AckQueue.newAckqueue 0 ∧
+      ¬ GWf ⟨0, -1, 0, 0, 0, [], [], [], []⟩ := by
+  refine ⟨by decide, by decide, fun h => ?_⟩
+  exact absurd h.mask (by decide)
+
+theorem msb_of_neg {n : Int} (h : -2 ^ 63 ≤ n ∧ n < 0) : (BitVec.ofInt 64 n).msb = true := by
+  rw [BitVec.msb_eq_toInt, toInt_ofInt_self (by omega)]
+  exact decide_eq_true h.2
+
+theorem powerOfTwo64_nonpos (n : Int) (h : -2 ^ 63 < n ∧ n ≤ 0) : Sessions.powerOfTwo64 n = false := by
+  by_cases h0 : n = 0
+  · subst h0; rfl
+  · unfold Sessions.powerOfTwo64 Go.andInt
+    have hm : (BitVec.ofInt 64 n &&& BitVec.ofInt 64 (n - 1)).msb = true := by
+      rw [BitVec.msb_and, msb_of_neg (by omega), msb_of_neg (by omega)]; rfl
+    have := BitVec.toInt_neg_of_msb_true hm
+    have hne : ((BitVec.ofInt 64 n &&& BitVec.ofInt 64 (n - 1)).toInt == 0) = false := by
+      rw [beq_eq_false_iff_ne]; omega
+    rw [hne, Bool.and_false]
+
+theorem roundUpPowerOfTwo64_nonpos (n : Int) (h : -2 ^ 63 < n ∧ n ≤ 0) :
+    Sessions.roundUpPowerOfTwo64 n = 0 := by
+  obtain ⟨L, hL, hlt, hge, hg, hm⟩ := roundUp_both n (by omega)
+  have hp := toNat_pred n (by omega)
+  rw [if_neg (by omega)] at hp
+  have hL64 : L = 64 := by
+    by_cases h0 : L ≤ 63
+    · have : 2 ^ L ≤ 2 ^ 63 := Nat.pow_le_pow_right (by omega) h0
+      omega
+    · omega
+  subst hL64
+  rw [hg]; decide
+
+/-- every `n ≤ 0` (above `-2^63`) behaves like `0` on both sides -/
+theorem newAckqueue_nonpos (n : Int) (h : -2 ^ 63 < n ∧ n ≤ 0) :
+    Sessions.newAckqueue n = .ok ⟨0, -1, 0, 0, 0, [], [], [], []⟩ ∧
+      Mqtt.Model.AckQueue.newAckqueue n.toNat = Mqtt.Model.AckQueue.newAckqueue 0 := by
+  constructor
+  · unfold Sessions.newAckqueue
+    simp only [powerOfTwo64_nonpos n h, roundUpPowerOfTwo64_nonpos n h, Bool.not_false, ↓reduceIte]
+    rfl
+  · have : n.toNat = 0 := by omega
+    rw [this]
+
 end Mqtt.Proofs.XlateAckq
